@@ -242,6 +242,38 @@ func runC04(c *Ctx) {
 
 	c.rule("C04.P1", "the sync never wedges itself: "+lockOrderDoc, func() { c.lockOrder() })
 
+	c.rule("C04.O9", "every connection that ends is reported: ChainService.handleDonePeerMsg is the only place that tells the connection manager a connection is over (the retry of a permanent peer, a new request in place of a discovered one), and it hears of it from peerDoneHandler alone; so from the return of WaitForDisconnect every path of peerDoneHandler passes the select that sends the peer on s.donePeers (its other arm is the shutdown) - made conditional on a completed handshake, a connection that dies between connect and verack is never redialled: the only honest peer is gone for good", func() {
+		fn := c.fn("(*neutrino.ChainService).peerDoneHandler")
+		wfd := find(fn, func(in ssa.Instruction) bool {
+			cc := ir.CallOf(in)
+			if cc == nil {
+				return false
+			}
+			f := cc.StaticCallee()
+			return f != nil && f.Name() == "WaitForDisconnect"
+		})
+		done := c.field("neutrino", "ChainService", "donePeers")
+		report := func(in ssa.Instruction) bool {
+			switch x := in.(type) {
+			case *ssa.Select:
+				for _, st := range x.States {
+					if st.Dir == types.SendOnly && loadsField(done)(st.Chan) {
+						return true
+					}
+				}
+			case *ssa.Send:
+				return loadsField(done)(x.Chan)
+			}
+			return false
+		}
+		var starts []start
+		for _, x := range wfd {
+			starts = append(starts, afterInstr(c, x))
+		}
+		c.mustFollow(fn, "the connection ended (WaitForDisconnect returned)", starts, report, "the send on s.donePeers", nil, 1)
+	})
+	c.rule("C04.V4", "the heavier honest branch is not turned down on the timestamps of the lighter one: "+branchOwnAncestorsDoc, func() { c.branchOwnAncestors() })
+	c.rule("C04.V3", "the client keeps the most-work chain whatever lighter headers arrive: "+offeredWorkDoc, func() { c.offeredWorkFromFork() })
 	c.rule("C04.V2", "a request for filter headers can be answered: a cfheaders message carries at most wire.MaxCFHeadersPerMsg hashes, and getCFHeadersForAllPeers accepts only answers with exactly the number it asked for; where the request is capped, the header it stops at and the stop height are both height + MaxCFHeadersPerMsg - 1, so that stopHeight - height + 1 stays within the limit (one more and no peer can ever answer: the filter header tip stops following the chain once it is more than a message behind)", func() {
 		fn := c.fn("(*neutrino.blockManager).getCFHeadersForAllPeers")
 		fetch := c.method("headerfs", "BlockHeaderStore", "FetchHeaderByHeight")
